@@ -74,6 +74,8 @@ type Config struct {
 	Shard, Shards int // explore only prefixes whose hash falls in this shard (after ShardDepth decisions)
 	ShardDepth   int
 	KeepPaths    int // keep at most this many ok-path records (violations always kept)
+	FrontierMin  int      // breadth-first until the queue holds this many prefixes, then stop and return them
+	Prefixes     []string // start from these decision prefixes (t/f free, T/F forced) instead of the root
 }
 
 // Report is the outcome of exploring one harness.
@@ -101,6 +103,7 @@ type Report struct {
 	MaxDepthSeen   int            `json:"max_depth_seen"`
 	Assumptions    []string       `json:"assumptions,omitempty"`
 	QueueLeft      int            `json:"queue_left"`
+	Frontier       []string       `json:"frontier,omitempty"`
 }
 
 type explorer struct {
@@ -118,6 +121,7 @@ type explorer struct {
 	inputByID map[string]*Input
 	events []Event
 	unknownHere bool
+	modelValid  bool
 
 	mapOrderSymbolic bool
 	permCount        int
@@ -205,15 +209,26 @@ func (ex *explorer) decide(c *sym.Term) bool {
 	}
 	if ex.pos < len(ex.prefix) {
 		d := ex.prefix[ex.pos]
-		if d.cond != c {
+		if d.cond != nil && d.cond != c {
 			panic(pathEnd{status: stEngineError, detail: fmt.Sprintf("non-deterministic replay at decision %d: expected %.120s got %.120s", ex.pos, d.cond, c)})
 		}
 		ex.pos++
 		ex.record(c, d.val, d.forced)
 		return d.val
 	}
+	if !ex.modelValid {
+		// prefix came without a model (frontier hand-over): obtain one for the current path condition
+		ex.solver.Push()
+		if ex.solver.Check() == smt.Sat {
+			ex.model = ex.solver.Model(ex.inputTerms())
+		} else {
+			ex.model = nil
+		}
+		ex.solver.Pop()
+		ex.modelValid = ex.model != nil
+	}
 	var mv *sym.Term
-	if ex.model != nil {
+	if ex.model != nil && ex.modelValid {
 		mv = sym.Eval(c, ex.model)
 	}
 	if mv != nil {
@@ -246,6 +261,7 @@ func (ex *explorer) decide(c *sym.Term) bool {
 		}
 		if m1 != nil {
 			ex.model = m1
+			ex.modelValid = true
 		}
 		ex.record(c, true, r2 == smt.Unsat)
 		return true
@@ -255,6 +271,7 @@ func (ex *explorer) decide(c *sym.Term) bool {
 	if r2 == smt.Sat {
 		if m2 != nil {
 			ex.model = m2
+			ex.modelValid = true
 		}
 		ex.record(c, false, false)
 		return false
@@ -266,7 +283,12 @@ func (ex *explorer) assume(c *sym.Term) {
 	if ex.pcSet[c] {
 		return
 	}
-	if ex.model != nil {
+	if ex.pos < len(ex.prefix) && !ex.modelValid {
+		// replaying a model-less prefix: assumptions held when the prefix was recorded
+		ex.addPC(c)
+		return
+	}
+	if ex.model != nil && ex.modelValid {
 		if mv := sym.Eval(c, ex.model); mv != nil && mv.IsTrue() {
 			ex.addPC(c)
 			return
@@ -276,6 +298,7 @@ func (ex *explorer) assume(c *sym.Term) {
 	switch r {
 	case smt.Sat:
 		ex.model = m
+		ex.modelValid = m != nil
 		ex.addPC(c)
 	case smt.Unsat:
 		panic(pathEnd{status: stAssumeFalse})
@@ -427,6 +450,7 @@ func (ex *explorer) runOne(entry *ssa.Function, item workItem) (res PathResult) 
 	for k, v := range item.model {
 		ex.model[k] = v
 	}
+	ex.modelValid = item.model != nil || len(item.prefix) == 0
 	ex.inputs = nil
 	ex.inputByID = map[string]*Input{}
 	ex.events = nil
@@ -578,11 +602,30 @@ func (ex *explorer) finish(res *PathResult) {
 	res.Events = ex.events
 }
 
+// freeCount is the number of non-forced decisions in p.
+func freeCount(p []decision) int {
+	n := 0
+	for _, d := range p {
+		if !d.forced {
+			n++
+		}
+	}
+	return n
+}
+
 func hashPrefix(p []decision, n int) uint32 {
-	// only the decision values: term identities differ from process to process
+	// only the values of the first n free (non-forced) decisions: term identities
+	// differ from process to process, and forced decisions carry no information
 	var h uint32 = 2166136261
-	for k := 0; k < n && k < len(p); k++ {
-		if p[k].val {
+	k := 0
+	for _, d := range p {
+		if d.forced {
+			continue
+		}
+		if k >= n {
+			break
+		}
+		if d.val {
 			h ^= 0x9e
 		} else {
 			h ^= 0x3b
@@ -590,6 +633,7 @@ func hashPrefix(p []decision, n int) uint32 {
 		h *= 16777619
 		h ^= uint32(k)
 		h *= 16777619
+		k++
 	}
 	return h
 }
@@ -617,7 +661,20 @@ func (i *interpreter) Explore(entry *ssa.Function, cfg Config) *Report {
 
 	rep := &Report{Harness: entry.Name(), ByStatus: map[string]int{}, Reach: map[string]int{}, Asserts: map[string]int{}}
 	ex.queue = []workItem{{}}
+	if len(cfg.Prefixes) > 0 {
+		ex.queue = nil
+		for _, ps := range cfg.Prefixes {
+			var pr []decision
+			for _, ch := range ps {
+				pr = append(pr, decision{nil, ch == 't' || ch == 'T', ch == 'T' || ch == 'F'})
+			}
+			ex.queue = append(ex.queue, workItem{prefix: pr})
+		}
+	}
 	for len(ex.queue) > 0 {
+		if cfg.FrontierMin > 0 && len(ex.queue) >= cfg.FrontierMin {
+			break
+		}
 		if cfg.MaxPaths > 0 && rep.Paths >= cfg.MaxPaths {
 			rep.Truncated, rep.TruncatedWhy = true, "path limit"
 			break
@@ -626,16 +683,23 @@ func (i *interpreter) Explore(entry *ssa.Function, cfg Config) *Report {
 			rep.Truncated, rep.TruncatedWhy = true, "time limit"
 			break
 		}
-		// depth-first: take the most recent item (keeps the queue small)
-		item := ex.queue[len(ex.queue)-1]
-		ex.queue = ex.queue[:len(ex.queue)-1]
-		if cfg.Shards > 1 && len(item.prefix) >= cfg.ShardDepth {
+		var item workItem
+		if cfg.FrontierMin > 0 {
+			// breadth-first while building a frontier
+			item = ex.queue[0]
+			ex.queue = ex.queue[1:]
+		} else {
+			// depth-first: take the most recent item (keeps the queue small)
+			item = ex.queue[len(ex.queue)-1]
+			ex.queue = ex.queue[:len(ex.queue)-1]
+		}
+		if cfg.Shards > 1 && freeCount(item.prefix) >= cfg.ShardDepth {
 			if int(hashPrefix(item.prefix, cfg.ShardDepth)%uint32(cfg.Shards)) != cfg.Shard {
 				continue
 			}
 		}
 		res := ex.runOne(entry, item)
-		if cfg.Shards > 1 && res.Decisions < cfg.ShardDepth && cfg.Shard != 0 {
+		if cfg.Shards > 1 && freeCount(ex.trace) < cfg.ShardDepth && cfg.Shard != 0 {
 			// short paths are owned by shard 0
 			continue
 		}
@@ -680,6 +744,25 @@ func (i *interpreter) Explore(entry *ssa.Function, cfg Config) *Report {
 		}
 	}
 	rep.QueueLeft = len(ex.queue)
+	if cfg.FrontierMin > 0 {
+		for _, it := range ex.queue {
+			var sb strings.Builder
+			for _, d := range it.prefix {
+				switch {
+				case d.val && d.forced:
+					sb.WriteByte('T')
+				case d.val:
+					sb.WriteByte('t')
+				case d.forced:
+					sb.WriteByte('F')
+				default:
+					sb.WriteByte('f')
+				}
+			}
+			rep.Frontier = append(rep.Frontier, sb.String())
+		}
+		rep.QueueLeft = 0
+	}
 	rep.SolverQueries = solver.Queries
 	rep.SolverTimeS = solver.Time.Seconds() + solver.ModelTime.Seconds()
 	rep.ModelTimeS = solver.ModelTime.Seconds()
